@@ -426,7 +426,7 @@ theorem fast_contains_tight (w1 w2 w3 w4 : ℝ) :
 theorem union_bounds_spec (a b : T2 ℝ ℝ) :
     union_bounds a b =
       if a.t0 = a.t1 then b else if b.t0 = b.t1 then a else T2.mk (min a.t0 b.t0) (max a.t1 b.t1) := by
-  simp only [union_bounds, beq_iff_eq, smallest_eq_min, biggest_eq_max]
+  simp only [union_bounds, box_is_empty, beq_iff_eq, smallest_eq_min, biggest_eq_max]
 
 /-! ### the box is exactly the range of the curve, and examples -/
 
